@@ -1,2 +1,200 @@
-(* C04: placeholder, theorems follow *)
-From NP Require Import Model.Tcp.
+(* C04 — TCP respects the peer's window and MSS and keeps its own window honest.
+   Only the property theorems; each is closed by [exact] of a lemma of Proofs/TcpWnd*P.v and
+   followed by Print Assumptions.  Model: Model/Tcp.v (rcv.go, snd.go, reno.go, timer.go, the
+   established-state parts of connect.go and endpoint.go), validated against the real code by
+   lock-step traces (Corr/TcpTrace.v, Corr/C04.v).
+
+   Vocabulary (Proofs/TcpWndP.v, TcpWndRcvP.v, TcpWndRcv2P.v, TcpWndThmP.v):
+   [within_window una wnd f]: f carries no data, or f_seq precedes una+wnd and the distance from
+     f_seq to una+wnd is at least the number of bytes f carries (its bytes end at or before the edge).
+   [fast_rexmit_event t e]: e is a pure ACK (no data, SYN, FIN) whose scaled window equals the
+     window already in force — the only kind of event on which the code retransmits through
+     resendSegment (fast retransmit / NewReno partial ACK).
+   [seq_of b off] = u32 (b + 1 + off): the sequence number of stream offset off for initial number b.
+   [RInvAt b n a t]: the receiver invariant between events: rcvNxt = maxSentAck = seq_of b n,
+     rcvAcc = seq_of b a, n <= a <= n + 2^30, 0 <= rcvWndScale <= 14, 0 <= rcvBufSize <= 2^30,
+     rcvBufUsed = number of bytes in the delivery queue, a - n <= max 0 (rcvBufSize - rcvBufUsed),
+     and the pending heap's accounting (sum of logical lengths <= pendUsed <= pendSize + 2^17,
+     pendSize <= 2^28).  [ev_ok e]: an arriving segment carries at most 65535 bytes (IP limit).
+   [edge s f] = f_ack + (f_wnd << s): the right edge f advertises.  [adv_edge t]: the edge the
+     most recent segment advertised, read off the state (maxSentAck, rcvAcc).
+   [monok s k last l]: along l, starting after edge [last], no edge lies more than k to the left of
+     its predecessor (serial comparison: lessThan (edge + k) previous = false).
+   [isReset f]: the RST|ACK with window 0 of resetConnection; after it the connection is dead
+     (state error, nothing is ever emitted again: Proofs dead_run).
+
+   clause "never sends a byte beyond the right edge of the window the peer has offered (after scaling)"
+       -> C04_never_beyond_peer_window_sendData (FULL for everything the send loop emits: new data
+          and ALL retransmissions after a retransmission time-out, which are re-split against the
+          window in force), C04_never_beyond_peer_window_partial (every event: every data frame
+          lies within sndUna+sndWnd of the resulting state, except possibly the frame re-sent by
+          resendSegment on a fast_rexmit_event), C04_never_beyond_peer_window_refuted (the clause
+          as worded is FALSE for fast retransmissions after the peer shrank its window: witness),
+          C04_window_scaling_applied_in (the window used is s_wnd << sndWndScale).
+          FIN carries no data and is exempt, as in the code.
+   clause "nor a segment larger than the peer's MSS or the path MTU allows"
+       -> C04_seg_within_mss (len <= maxPayload for every frame of the send loop; maxPayload never
+          changes in the model).  maxPayload itself is computed by the handshake from the peer's
+          MSS option and the route MTU minus headers/options (newSender, updateMaxPayloadSize):
+          OUTSIDE this model; the correspondence monitor checks it against the MSS option and the
+          MTU on every trace.  Same exception (the resendSegment frame) as above.
+   clause "the right edge it advertises never moves left"
+       -> C04_right_edge_monotone_partial (all histories: rcvNxt and rcvAcc offsets never decrease,
+          every advertised edge <= rcvAcc, consecutive edges never move left by 2^scale or more),
+          C04_right_edge_monotone_unscaled (scale 0: never moves left at all),
+          C04_right_edge_monotone_refuted (scale > 0: FALSE as worded, the edge moves left by up
+          to 2^scale - 1 through truncation: witness, also seen on the real code = known finding
+          C04-edge-rounding).
+   clause "in-order data inside the advertised window is accepted and delivered"
+       -> C04_in_window_accepted_and_delivered (FULL)
+   clause "data wholly outside it is never delivered"
+       -> C04_outside_never_delivered, C04_outside_never_delivered_offsets (FULL, in that event; a
+          segment parked in the pending heap is delivered later only when rcvNxt reaches it, where
+          C01's rcv_delivers_prefix applies)
+   clause "when the application stops reading the advertised window closes and reopens once it reads again"
+       -> C04_advertised_window_step (FULL under the invariant: every frame's window << scale is
+          at most the free buffer space left after the event, so it is 0 once rcvBufUsed >=
+          rcvBufSize; also the exact window formula = clause "after window scaling" for the own
+          window), C04_window_reopens (the read after which zeroReceiveWindow turns false sends a
+          window update with a non-zero window iff the window advertised before was (.. >> scale) = 0).
+   Satisfiability of the hypotheses: Examples ex_* in Proofs/TcpWndThmP.v (vm_compute), quoted below. *)
+From Coq Require Import ZArith Bool List.
+From RecordUpdate Require Import RecordSet.
+From NP Require Import Model.Seqnum Model.Tcp Proofs.SeqnumP Proofs.TcpWndP Proofs.TcpWndRcvP Proofs.TcpWndRcv2P
+  Proofs.TcpWndRcv3P Proofs.TcpWndThmP.
+Import ListNotations RecordSetNotations.
+Open Scope Z_scope.
+
+(* ---- clause 1: the peer's window ---- *)
+(* everything sendData emits lies within the window in force — full *)
+Theorem C04_never_beyond_peer_window_sendData : forall t idle, 0 <= maxPayload (SN t) ->
+  exists l, out (sendData t idle) = out t ++ l /\
+            Forall (within_window (sndUna (SN t)) (sndWnd (SN t))) l /\
+            sndUna (SN (sendData t idle)) = sndUna (SN t) /\ sndWnd (SN (sendData t idle)) = sndWnd (SN t).
+Proof. exact never_beyond_peer_window_sendData. Qed.
+Print Assumptions C04_never_beyond_peer_window_sendData.
+
+(* every event, every state: partial (exception = the resendSegment frame) *)
+Theorem C04_never_beyond_peer_window_partial : forall t e, 0 <= maxPayload (SN t) ->
+  let t' := fst (step t e) in
+  Forall (fun f => within_window (sndUna (SN t')) (sndWnd (SN t')) f \/ fast_rexmit_event t e) (out t').
+Proof. exact never_beyond_peer_window_partial. Qed.
+Print Assumptions C04_never_beyond_peer_window_partial.
+
+(* the clause as worded is false: a reachable state and an event whose fast retransmission ends
+   beyond the (shrunk) window — refuted *)
+Theorem C04_never_beyond_peer_window_refuted :
+  exists t0 es e f,
+    t0 = w1_init /\
+    let t := run t0 es in let t' := fst (step t e) in
+    In f (out t') /\ f_data f <> [] /\ fast_rexmit_event t e /\
+    ~ within_window (sndUna (SN t')) (sndWnd (SN t')) f.
+Proof. exact never_beyond_peer_window_refuted. Qed.
+Print Assumptions C04_never_beyond_peer_window_refuted.
+
+(* incoming windows are shifted by the negotiated scale before use — full *)
+Theorem C04_window_scaling_applied_in : forall t sg r,
+  0 <= maxPayload (SN t) ->
+  estate t = stConnected -> has (s_flags sg) fRst = false -> has (s_flags sg) fAck = true ->
+  (tsOk t && negb (s_ts sg)) = false ->
+  let t' := fst (step t (ESeg sg r)) in
+  sndWnd (SN t') = u32 (Z.shiftl (s_wnd sg) (sndWndScale (SN t))) /\ sndWndScale (SN t') = sndWndScale (SN t).
+Proof. exact window_scaling_applied_in. Qed.
+Print Assumptions C04_window_scaling_applied_in.
+
+(* ---- clause 2: segment size ---- *)
+Theorem C04_seg_within_mss : forall t e, 0 <= maxPayload (SN t) ->
+  let t' := fst (step t e) in
+  Forall (fun f => len (f_data f) <= maxPayload (SN t) \/ fast_rexmit_event t e) (out t') /\
+  maxPayload (SN t') = maxPayload (SN t).
+Proof. exact seg_within_mss. Qed.
+Print Assumptions C04_seg_within_mss.
+
+(* ---- clauses 3, 4, 6: what one event advertises ---- *)
+Theorem C04_advertised_window_step : forall b n a t e,
+  RInvAt b n a t -> ev_ok e ->
+  let s := rcvWndScale (RC t) in let t' := fst (step t e) in
+  exists n' a' l r,
+    n <= n' /\ a <= a' /\ RInvAt b n' a' t' /\ out t' = l ++ r /\
+    (r = [] \/ exists f, r = [f] /\ isReset f /\ estate t' = stError) /\
+    monok s (2^s - 1) (adv_edge t) l /\ last_edge s (adv_edge t) l = adv_edge t' /\
+    Forall (fun f => exists nf af,
+              f_ack f = seq_of b nf /\ f_wnd f = Z.min 65535 (Z.shiftr (af - nf) s) /\
+              n <= nf <= af /\ a <= af <= a' /\
+              Z.shiftl (f_wnd f) s <= Z.max 0 (rcvBufSize t' - rcvBufUsed t') /\
+              (rcvBufSize t' <= rcvBufUsed t' -> f_wnd f = 0)) l.
+Proof. exact advertised_window_step. Qed.
+Print Assumptions C04_advertised_window_step.
+
+(* ---- clause 4: histories ---- *)
+Theorem C04_right_edge_monotone_partial : forall b es n a t,
+  RInvAt b n a t -> Forall ev_ok es ->
+  let s := rcvWndScale (RC t) in
+  exists n' a' l r,
+    n <= n' /\ a <= a' /\ RInvAt b n' a' (run t es) /\ run_out t es = l ++ r /\
+    (r = [] \/ exists f, r = [f] /\ isReset f /\ estate (run t es) = stError) /\
+    monok s (2^s - 1) (adv_edge t) l /\
+    Forall (fun f => exists nf af, f_ack f = seq_of b nf /\ f_wnd f = Z.min 65535 (Z.shiftr (af - nf) s) /\
+                                   n <= nf <= af /\ af <= a') l.
+Proof. exact right_edge_monotone_partial. Qed.
+Print Assumptions C04_right_edge_monotone_partial.
+
+Theorem C04_right_edge_monotone_unscaled : forall b es n a t,
+  RInvAt b n a t -> Forall ev_ok es -> rcvWndScale (RC t) = 0 ->
+  exists l r, run_out t es = l ++ r /\
+    (r = [] \/ exists f, r = [f] /\ isReset f /\ estate (run t es) = stError) /\
+    monok 0 0 (adv_edge t) l.
+Proof. exact right_edge_monotone_unscaled. Qed.
+Print Assumptions C04_right_edge_monotone_unscaled.
+
+(* with a window shift the edge does move left (by 12 here) — refuted *)
+Theorem C04_right_edge_monotone_refuted :
+  exists b n a t e f,
+    t = w2_init /\ RInvAt b n a t /\ ev_ok e /\ out (fst (step t e)) = [f] /\
+    lessThan (edge (rcvWndScale (RC t)) f) (adv_edge t) = true /\
+    size (edge (rcvWndScale (RC t)) f) (adv_edge t) = 12.
+Proof. exact right_edge_monotone_refuted. Qed.
+Print Assumptions C04_right_edge_monotone_refuted.
+
+(* ---- clause 5 ---- *)
+Theorem C04_in_window_accepted_and_delivered : forall t sg r,
+  estate t = stConnected -> has (s_flags sg) fRst = false -> has (s_flags sg) fAck = true ->
+  (tsOk t && negb (s_ts sg)) = false ->
+  rclosed (RC t) = false -> is_u32 (rcvNxt (RC t)) ->
+  s_seq sg = rcvNxt (RC t) -> 0 < len (s_data sg) < 2^31 ->
+  size (rcvNxt (RC t)) (rcvAcc (RC t)) <> 0 ->
+  acceptable (RC t) (s_seq sg) (len (s_data sg)) = true /\
+  exists rest, rcvList (fst (step t (ESeg sg r))) = rcvList t ++ [s_data sg] ++ rest.
+Proof. exact in_window_accepted_and_delivered. Qed.
+Print Assumptions C04_in_window_accepted_and_delivered.
+
+Theorem C04_outside_never_delivered : forall t sg r,
+  0 < len (s_data sg) ->
+  acceptable (RC t) (s_seq sg) (len (s_data sg)) = false \/
+  inWindow (rcvNxt (RC t)) (s_seq sg) (len (s_data sg)) = false ->
+  rcvList (fst (step t (ESeg sg r))) = rcvList t.
+Proof. exact outside_never_delivered. Qed.
+Print Assumptions C04_outside_never_delivered.
+
+Theorem C04_outside_never_delivered_offsets : forall b n a o t sg r,
+  rcvNxt (RC t) = seq_of b n -> rcvAcc (RC t) = seq_of b a -> s_seq sg = seq_of b o ->
+  0 < len (s_data sg) < 2^31 -> n <= a <= n + 2^30 -> - 2^30 <= o - n <= 2^30 ->
+  (o + len (s_data sg) <= n \/ a <= o) ->
+  rcvList (fst (step t (ESeg sg r))) = rcvList t.
+Proof. exact outside_never_delivered_offsets. Qed.
+Print Assumptions C04_outside_never_delivered_offsets.
+
+(* ---- clause 6: reopening ---- *)
+Theorem C04_window_reopens : forall b n a t v rest,
+  RInvAt b n a t -> estate t = stConnected -> rcvList t = v :: rest -> rcvBufUsed t <> 0 ->
+  let t1 := t <| rcvList := rest |> <| rcvBufUsed := rcvBufUsed t - len v |> in
+  zeroReceiveWindow t = true -> zeroReceiveWindow t1 = false ->
+  snd (fst (appRead t)) = Some v /\
+  out (fst (fst (appRead t))) =
+    out t ++ (if Z.shiftr (u32 (rcvAcc (RC t) - rcvNxt (RC t))) (rcvWndScale (RC t)) =? 0
+              then [mkF (sndNxt (SN t)) (rcvNxt (RC t)) fAck
+                        (adv_wnd (rcvNxt (RC t)) (newAcc t1) (rcvWndScale (RC t))) []]
+              else []) /\
+  0 < adv_wnd (rcvNxt (RC t)) (newAcc t1) (rcvWndScale (RC t)).
+Proof. exact window_reopens. Qed.
+Print Assumptions C04_window_reopens.
